@@ -24,6 +24,7 @@ type histMode struct {
 	gen       hist.GenConfig
 	oracle    func(h *hist.History, o *hist.Outcome) []hist.Problem
 	roracle   func(r *hist.Run) []hist.Problem // oracle that needs the recorded traffic
+	presence  bool                             // a third of the histories run on a presenceless document
 	serverDoc bool                             // compare server-side rebuilds with the change-by-change replica
 	smallSnap bool                             // half of the histories run on projects with tiny snapshot interval/threshold
 	proto     bool                             // emit protocol-model cases
@@ -68,6 +69,13 @@ func modeFor(prop string) (*histMode, error) {
 			oracle: func(h *hist.History, o *hist.Outcome) []hist.Problem {
 				return append(baseOracle(h, o), hist.CheckConvergence(o)...)
 			}}, nil
+	case "C12":
+		return &histMode{flavors: []string{"counter", "object", "text"}, proto: true, smallSnap: true, presence: true,
+			gen: hist.GenConfig{MinClients: 2, MaxClients: 4, MinSteps: 8, MaxSteps: 30, Presence: true, Late: true, Deactivate: true, Detach: true},
+			oracle: func(h *hist.History, o *hist.Outcome) []hist.Problem {
+				return append(baseOracle(h, o), hist.CheckConvergence(o)...)
+			},
+			roracle: hist.CheckPresence}, nil
 	case "C11":
 		return &histMode{flavors: []string{"counter", "object", "array"}, proto: true,
 			gen:     hist.GenConfig{MinClients: 2, MaxClients: 4, MinSteps: 8, MaxSteps: 30, Detach: true, Deactivate: true, Late: true},
@@ -284,6 +292,10 @@ func runHist(cfg *config) error {
 		}
 		hr := r.Fork()
 		h := hist.Generate(hr, g)
+		if mode.presence && i%3 == 2 {
+			h.NoPresenceDoc = true
+			h.LateNoFlag = i%2 == 0
+		}
 		h.Seed = cfg.seed
 		o, ps := runOne(h)
 		res.Evaluations++
